@@ -92,6 +92,7 @@ type worldCase struct {
 	Global *struct {
 		K    int    `json:"k"`
 		Kind string `json:"kind"`
+		On   string `json:"on"` // "" = the k-th write of any kind; "control" = the k-th write of the ExtendedDaemonSet controller (on the ExtendedDaemonSet, replica-set creation/deletion)
 	} `json:"global_fault"`
 }
 
@@ -168,6 +169,7 @@ type world struct {
 	faults  *faultSpec
 	writes  int
 	total   int    // writes issued by reconciles since the start of the case (for the global fault)
+	totalCtl int   // ... those of the ExtendedDaemonSet controller
 	globalHit string // kind of the global fault that fires on the current call
 	globalNow string
 	inReconcile bool
@@ -275,6 +277,17 @@ func tmplHash(tpl *corev1.PodTemplateSpec) string {
 	return hex.EncodeToString(s[:])
 }
 
+// acceptedSpec: the implementation's own verdict on a spec - recognised as defaulted and passing validation.
+func acceptedSpec(e *v1alpha1.ExtendedDaemonSet) (ok bool) {
+	defer func() {
+		if r := recover(); r != nil {
+			ok = false
+		}
+	}()
+
+	return v1alpha1.IsDefaultedExtendedDaemonSet(e) && v1alpha1.ValidateExtendedDaemonSetSpec(&e.Spec) == nil
+}
+
 func marshalObj(obj client.Object) json.RawMessage {
 	b, err := json.Marshal(obj)
 	if err != nil {
@@ -290,6 +303,7 @@ func marshalObj(obj client.Object) json.RawMessage {
 	switch o := obj.(type) {
 	case *v1alpha1.ExtendedDaemonSet:
 		m["_tmplHash"] = tmplHash(&o.Spec.Template)
+		m["_accepted"] = acceptedSpec(o)
 	case *v1alpha1.ExtendedDaemonSetReplicaSet:
 		m["_tmplHash"] = tmplHash(&o.Spec.Template)
 	case *corev1.PodTemplate:
@@ -314,13 +328,24 @@ func (w *world) record(verb string, obj client.Object, failed bool, withObj bool
 }
 
 // beforeWrite implements the process-stop faults.
-func (w *world) beforeWrite() {
+func (w *world) beforeWrite(verb string, obj client.Object) {
 	w.mu.Lock()
 	w.writes++
 	w.total++
+	// writes of the ExtendedDaemonSet controller: on the ExtendedDaemonSet itself, and replica-set creation/deletion
+	isCtl := false
+	switch obj.(type) {
+	case *v1alpha1.ExtendedDaemonSet:
+		isCtl = true
+	case *v1alpha1.ExtendedDaemonSetReplicaSet:
+		isCtl = verb == "create" || verb == "delete"
+	}
+	if isCtl && w.inReconcile {
+		w.totalCtl++
+	}
 	n := w.writes
 	g := w.opts.Global
-	hit := g != nil && g.K > 0 && w.total == g.K && w.inReconcile
+	hit := g != nil && g.K > 0 && w.inReconcile && ((g.On == "" && w.total == g.K) || (g.On == "control" && isCtl && w.totalCtl == g.K))
 	if hit {
 		w.globalHit = g.Kind
 	}
@@ -463,7 +488,7 @@ func (w *world) build(objs []client.Object) {
 			if w.isDead() {
 				return errInjected
 			}
-			w.beforeWrite()
+			w.beforeWrite("create", obj)
 			if w.isDead() {
 				return errInjected
 			}
@@ -491,7 +516,7 @@ func (w *world) build(objs []client.Object) {
 			if w.isDead() {
 				return errInjected
 			}
-			w.beforeWrite()
+			w.beforeWrite("delete", obj)
 			if w.isDead() {
 				return errInjected
 			}
@@ -532,7 +557,7 @@ func (w *world) build(objs []client.Object) {
 			if w.isDead() {
 				return errInjected
 			}
-			w.beforeWrite()
+			w.beforeWrite("update", obj)
 			if w.isDead() {
 				return errInjected
 			}
@@ -553,7 +578,7 @@ func (w *world) build(objs []client.Object) {
 			if w.isDead() {
 				return errInjected
 			}
-			w.beforeWrite()
+			w.beforeWrite("patch", obj)
 			if w.isDead() {
 				return errInjected
 			}
@@ -574,7 +599,7 @@ func (w *world) build(objs []client.Object) {
 			if w.isDead() {
 				return errInjected
 			}
-			w.beforeWrite()
+			w.beforeWrite("status_update", obj)
 			if w.isDead() {
 				return errInjected
 			}
